@@ -248,8 +248,9 @@ func (cl *Client) ParseConnect(lid string, pk packets.Packet) {
 			WillDelayInterval: pk.Connect.WillProperties.WillDelayInterval,
 			User:              pk.Connect.WillProperties.User,
 		}
-		if pk.Properties.SessionExpiryIntervalFlag &&
-			pk.Properties.SessionExpiryInterval < pk.Connect.WillProperties.WillDelayInterval {
+		if pk.Properties.SessionExpiryInterval < pk.Connect.WillProperties.WillDelayInterval {
+			// The will is published when the delay elapses or the session ends, whichever is
+			// first [MQTT-3.1.3-9]; an absent session expiry interval means 0 (ends at disconnect).
 			cl.Properties.Will.WillDelayInterval = pk.Properties.SessionExpiryInterval
 		}
 		if pk.Connect.WillFlag {
